@@ -208,6 +208,24 @@ fn run_case(case: &Value) -> Value {
                     res["rest"] = json!(rest);
                 }
             }
+            if case.get("want_lit").and_then(Value::as_bool).unwrap_or(false) {
+                // the characters between the quotes of the SOURCE literal as printed in the returned text (C16)
+                if let Ok(ts) = text.parse::<proc_macro2::TokenStream>() {
+                    let toks: Vec<proc_macro2::TokenTree> = ts.into_iter().collect();
+                    for w in toks.windows(6) {
+                        let is_source = matches!(&w[0], proc_macro2::TokenTree::Ident(i) if i == "SOURCE");
+                        if is_source {
+                            if let proc_macro2::TokenTree::Literal(l) = &w[5] {
+                                let t = l.to_string();
+                                if t.starts_with('"') && t.ends_with('"') && t.len() >= 2 {
+                                    let body: Vec<u32> = t[1..t.len() - 1].chars().map(|c| c as u32).collect();
+                                    res["source_literal_chars"] = json!(body);
+                                }
+                            }
+                        }
+                    }
+                }
+            }
             if want_toks {
                 match catch_unwind(AssertUnwindSafe(|| toks::tokens(&text))) {
                     Ok(Ok(t)) => res["toks"] = json!(t),
